@@ -21,14 +21,18 @@ inductive FExpr where
   | or (a b : FExpr)
   | not (a : FExpr)               -- not_filter<not_filter<F>> is specialised to F itself: same value
   | null                          -- null_filter: always true
+  | tagNot (t : Str)              -- a user-written filter that mutes one tag: `r.tag() != t`
   deriving DecidableEq, Repr
 
-def evalF (th : Nat → Sev) : FExpr → Sev → Bool
-  | .thr n, s => decide (th n ≤ s)
-  | .and a b, s => evalF th a s && evalF th b s
-  | .or a b, s => evalF th a s || evalF th b s
-  | .not a, s => !evalF th a s
-  | .null, _ => true
+/-- A filter sees the record the statement has built so far: its severity and its tag (a null or
+empty tag leaves the record's tag empty). -/
+def evalF (th : Nat → Sev) : FExpr → Sev → Option Str → Bool
+  | .thr n, s, _ => decide (th n ≤ s)
+  | .and a b, s, t => evalF th a s t && evalF th b s t
+  | .or a b, s, t => evalF th a s t || evalF th b s t
+  | .not a, s, t => !evalF th a s t
+  | .null, _, _ => true
+  | .tagNot x, _, t => decide (t.getD [] ≠ x)
 
 inductive Item where
   | text (s : Str)                -- anything with a stream representation (already rendered)
@@ -73,7 +77,7 @@ structure Obj where
 
 /-- `smart_stream(tag)`: filter evaluated once; rejected => record and buffer dropped -/
 def construct (cfg : Cfg) (th : Nat → Sev) (sev : Sev) (tag : Option Str) : Obj :=
-  if evalF th cfg.filter sev then ⟨true, sev, tag, some []⟩ else ⟨false, sev, tag, none⟩
+  if evalF th cfg.filter sev tag then ⟨true, sev, tag, some []⟩ else ⟨false, sev, tag, none⟩
 
 /-- the body shared by all four `operator<<` overloads: `if (s) s.sstr() << t` (resp. `t()`) -/
 def insertInto (o : Obj) (it : Item) : Obj × List Event :=
